@@ -312,6 +312,11 @@ def r4(ctx: Context, sites) -> None:
                     for x in walk_no_nested(p.node):
                         if isinstance(x, ast.Call) and call_name(x) == "clear" and isinstance(x.func.value, ast.Attribute):
                             cleared.add(x.func.value.attr)
+                        # a process-wide (class-level) registry keyed by app id: purge removes THIS app's entry
+                        if isinstance(x, ast.Call) and call_name(x) == "pop" and isinstance(x.func.value, ast.Attribute) and isinstance(x.func.value.value, ast.Name) and x.func.value.value.id in (c.name, "cls") and x.args and ast.unparse(x.args[0]).endswith("app.app_id"):
+                            cleared.add(x.func.value.attr)
+                        if isinstance(x, ast.Delete) and any(isinstance(t, ast.Subscript) and isinstance(t.value, ast.Attribute) and isinstance(t.value.value, ast.Name) and t.value.value.id in (c.name, "cls") and ast.unparse(t.slice).endswith("app.app_id") for t in x.targets):
+                            cleared |= {t.value.attr for t in x.targets if isinstance(t, ast.Subscript) and isinstance(t.value, ast.Attribute)}
                 if not purge_fs:
                     if f"purge-coverage::{c.name}::*" in NOT_OBSERVABLE:
                         ctx.ok("R4", f"purge-coverage::{c.name}::*", c.module.relpath, NOT_OBSERVABLE[f"purge-coverage::{c.name}::*"])
